@@ -1,1 +1,483 @@
-pub fn run(_a: &vcommon::Args) {}
+//! C13 — No input from a remote peer can crash the node.
+//!
+//! (i) service level: every message variant with boundary values, in every session state, in random
+//! orders, each call under catch_unwind; (ii) bytes level: random / mutated-valid / boundary frame
+//! bytes, chunked arbitrarily, into the real frame Deserializer, every decoded gossip frame handed
+//! to a live Service — run in child processes so that an abort (failed allocation, stack overflow)
+//! is observed as the child's death; (iii) git request headers into the real pkt-line parser.
+use std::io::Read;
+
+use radicle::identity::doc::Visibility;
+use radicle::identity::Did;
+use radicle::test::storage::MockStorage;
+use radicle_node::deserializer::Deserializer;
+use radicle_node::prelude::{BoundedVec, LocalDuration, Message, Timestamp};
+use radicle_node::service::filter::Filter;
+use radicle_node::service::message::{Info, Ping, Subscribe, ZeroBytes};
+use radicle_node::service::policy::{Scope, SeedingPolicy};
+use radicle_node::service::{Command, DisconnectReason, ServiceState};
+use radicle_node::wire::verif::{Frame, FrameData};
+use radicle_node::worker::verif::git_request;
+use radicle_node::Link;
+use vcommon::{guarded, hex, json, unhex, Args, Reporter, Rng, Value};
+
+use crate::svc::{self, Node, Remote};
+
+const INBOX: usize = 1024 * 1024 * 2;
+
+fn boundary_ts(rng: &mut Rng, now: u64) -> (u64, &'static str) {
+    match rng.below(9) {
+        0 => (0, "ts=0"),
+        1 => (1, "ts=1"),
+        2 => (*Timestamp::MAX, "ts=MAX"),
+        3 => (now + 3_600_000, "ts=now+1h"),
+        4 => (now + 3_600_001, "ts=now+1h+1"),
+        5 => (now.saturating_sub(10_000_000), "ts=old"),
+        _ => (now + rng.below(1000), "ts=now"),
+    }
+}
+
+fn gen_message(rng: &mut Rng, remotes: &[Remote], local: &svc::Dev, rids: &[radicle::identity::RepoId], now: u64) -> (Message, String) {
+    match rng.below(12) {
+        0 | 1 => {
+            let (a, b) = match rng.below(6) {
+                0 => (*Timestamp::MAX, 0),
+                1 => (now, now.saturating_sub(1)),
+                2 => (0, 0),
+                3 => (0, *Timestamp::MAX),
+                4 => (*Timestamp::MAX, *Timestamp::MAX),
+                _ => (now.saturating_sub(1000), *Timestamp::MAX),
+            };
+            let filter = if rng.bool() { Filter::default() } else { Filter::new(rids.iter().cloned()) };
+            (Message::Subscribe(Subscribe { filter, since: svc::tsv(a), until: svc::tsv(b) }), format!("subscribe since={a} until={b}"))
+        }
+        2..=7 => {
+            let (ts, tc) = boundary_ts(rng, now);
+            // announcer: a remote, the relayer itself, or the local node (we own its key too)
+            let who = rng.below(remotes.len() as u64 + 1) as usize;
+            let dev_owner: Option<&Remote> = remotes.get(who);
+            let kind = rng.below(3);
+            let ann = match (kind, dev_owner) {
+                (0, Some(r)) => r.node_announcement(ts),
+                (1, Some(r)) => {
+                    let n = *rng.pick(&[0usize, 1, 3, 2973]);
+                    let inv: Vec<_> = (0..n).map(|i| if i < rids.len() { rids[i] } else { svc::mk_doc(&format!("x{i}"), &[Did::from(r.nid)], Visibility::Public).0 }).collect();
+                    let inv = if n > 10 { let base = inv[0]; vec![base; n] } else { inv };
+                    r.inventory_announcement(ts, &inv)
+                }
+                (_, Some(r)) => {
+                    let n = *rng.pick(&[0usize, 1, 2, 1024]);
+                    let refs: Vec<_> = (0..n).map(|i| radicle::storage::refs::RefsAt { remote: remotes[i % remotes.len()].nid, at: svc::oid(rng) }).collect();
+                    r.refs_announcement(ts, *rng.pick(rids), refs)
+                }
+                (_, None) => {
+                    // signed by the local node's own key
+                    let m: radicle_node::service::message::AnnouncementMessage = radicle_node::service::message::InventoryAnnouncement { inventory: BoundedVec::new(), timestamp: svc::tsv(ts) }.into();
+                    m.signed(local)
+                }
+            };
+            let mut ann = ann;
+            let sig = if rng.chance(1, 8) {
+                ann.signature = remotes[0].node_announcement(5).signature;
+                "bad-signature"
+            } else {
+                "valid-signature"
+            };
+            (ann.into(), format!("announcement kind={kind} announcer={who} {tc} {sig}"))
+        }
+        8 => (Message::Info(Info::RefsAlreadySynced { rid: *rng.pick(rids), at: svc::oid(rng) }), "info".into()),
+        9 | 10 => {
+            let ponglen = *rng.pick(&[0u16, 1, Ping::MAX_PONG_ZEROES, Ping::MAX_PONG_ZEROES.saturating_add(1), u16::MAX]);
+            let zeroes = *rng.pick(&[0u16, 1, 100, Ping::MAX_PING_ZEROES]);
+            (Message::Ping(Ping { ponglen, zeroes: ZeroBytes::new(zeroes) }), format!("ping ponglen={ponglen} zeroes={zeroes}"))
+        }
+        _ => {
+            let z = *rng.pick(&[0u16, 1, 64, Ping::MAX_PONG_ZEROES]);
+            (Message::Pong { zeroes: ZeroBytes::new(z) }, format!("pong zeroes={z}"))
+        }
+    }
+}
+
+fn mk(seed: u64, persistent: Option<&Remote>) -> (Node, Vec<radicle::identity::RepoId>) {
+    let local = svc::device(20, 0);
+    let mut inv = vec![];
+    let mut rids = vec![];
+    for i in 0..2 {
+        let (rid, doc) = svc::mk_doc(&format!("c13-{i}"), &[Did::from(*local.public_key())], if i == 0 { Visibility::Public } else { Visibility::private([]) });
+        inv.push((rid, doc));
+        rids.push(rid);
+    }
+    rids.push(svc::mk_doc("c13-absent", &[Did::from(*local.public_key())], Visibility::Public).0);
+    let storage = MockStorage::new(inv);
+    let opts = svc::NodeOpts { relay: true, policy: SeedingPolicy::Allow { scope: Scope::All }, seed, fetch_concurrency: 1 };
+    let _ = persistent;
+    (svc::mk_node(storage, &opts), rids)
+}
+
+/// (i) service-level schedule.
+fn service_case(rep: &mut Reporter, seed: u64) {
+    let mut rng = Rng::new(seed);
+    let remotes: Vec<Remote> = (0..4u8).map(Remote::new).collect();
+    let local = svc::device(20, 0);
+    let Ok((mut node, rids)) = guarded(|| mk(seed, None)) else {
+        rep.inconclusive("node construction panicked", json!({}));
+        return;
+    };
+    let mut log: Vec<Value> = vec![];
+    // The session state is read from the service itself, so that the environment only makes calls
+    // the real wire layer can make in that state.
+    use radicle_node::service::session::State;
+    let sess_state = |node: &Node, p: usize| -> (&'static str, Link) {
+        match node.service.sessions().get(&remotes[p].nid) {
+            None => ("unknown", Link::Inbound),
+            Some(s) => (
+                match s.state {
+                    State::Initial => "initial",
+                    State::Attempted => "attempted",
+                    State::Connected { .. } => if s.link == Link::Inbound { "connected-inbound" } else { "connected-outbound" },
+                    State::Disconnected { .. } => "disconnected",
+                },
+                s.link,
+            ),
+        }
+    };
+    let nsteps = 20 + rng.usize(40);
+    for step in 0..nsteps {
+        let p = rng.usize(4);
+        let now = node.service.clock().as_millis() as u64;
+        let choice = rng.below(100);
+        let (st, link) = sess_state(&node, p);
+        let mut desc = String::new();
+        let r = guarded(|| match choice {
+            0..=13 => match st {
+                "unknown" => {
+                    if rng.bool() {
+                        node.service.connected(remotes[p].nid, remotes[p].addr.clone(), Link::Inbound);
+                        desc = format!("connected inbound {p}");
+                    } else {
+                        node.service.command(Command::Connect(remotes[p].nid, remotes[p].addr.clone(), radicle::node::ConnectOptions::default()));
+                        desc = format!("command connect {p}");
+                    }
+                }
+                "initial" => {
+                    node.service.attempted(remotes[p].nid, remotes[p].addr.clone());
+                    desc = format!("attempted {p}");
+                }
+                "attempted" => {
+                    if rng.chance(3, 4) {
+                        node.service.connected(remotes[p].nid, remotes[p].addr.clone(), Link::Outbound);
+                        desc = format!("connected outbound {p}");
+                    } else {
+                        node.service.disconnected(remotes[p].nid, Link::Outbound, &DisconnectReason::Dial(std::sync::Arc::new(std::io::Error::from(std::io::ErrorKind::ConnectionRefused))));
+                        desc = format!("dial failed {p}");
+                    }
+                }
+                "connected-inbound" | "connected-outbound" => {
+                    if rng.chance(1, 2) {
+                        node.service.disconnected(remotes[p].nid, link, &DisconnectReason::Command);
+                        desc = format!("disconnected {p}");
+                    }
+                }
+                _ => {}
+            },
+            14..=19 => {
+                svc::elapse(&mut node, LocalDuration::from_secs(1 + rng.below(100)));
+                desc = "elapse+wake".into();
+            }
+            _ => {
+                let (m, d) = gen_message(&mut rng, &remotes, &local, &rids, now);
+                desc = format!("message from {p} (session-state {st}): {d}");
+                node.service.received_message(remotes[p].nid, m);
+            }
+        });
+        rep.eval();
+        log.push(json!({"step": step, "event": desc}));
+        if let Err(pm) = r {
+            let what = desc.split(": ").nth(1).unwrap_or(&desc).split(' ').next().unwrap_or("?").to_string();
+            let detail = if desc.contains("ts=0") { "/timestamp-zero" } else if desc.contains("subscribe") { "/subscribe" } else { "" };
+            rep.violation(&format!("C13/panic/service/{}/{what}{detail}", vcommon::panic_site(&pm)), json!({"panic": pm, "log": log}));
+            return;
+        }
+        if choice >= 20 {
+            let kind = desc.split(": ").nth(1).unwrap_or("").split(' ').next().unwrap_or("?").to_string();
+            rep.count(&format!("service.message:{kind}@{st}"));
+        }
+        // honour disconnect requests
+        for io in svc::drain(&mut node) {
+            if let radicle_node::service::io::Io::Disconnect(nid, _) = io {
+                if let Some(q) = remotes.iter().position(|r| r.nid == nid) {
+                    let (qs, ql) = sess_state(&node, q);
+                    if qs.starts_with("connected") {
+                        if let Err(pm) = guarded(|| node.service.disconnected(nid, ql, &DisconnectReason::Command)) {
+                            rep.violation(&format!("C13/panic/service/{}/disconnected", vcommon::panic_site(&pm)), json!({"panic": pm, "log": log}));
+                            return;
+                        }
+                    }
+                }
+            }
+        }
+    }
+    rep.nontrivial(seed);
+    if rep.wants_sample() {
+        rep.sample(json!({"service_schedule": log.iter().take(15).collect::<Vec<_>>()}));
+    }
+}
+
+fn gen_frame_bytes(rng: &mut Rng, remotes: &[Remote], local: &svc::Dev, rids: &[radicle::identity::RepoId]) -> Vec<u8> {
+    let valid = |rng: &mut Rng| -> Vec<u8> {
+        let link = if rng.bool() { Link::Inbound } else { Link::Outbound };
+        let (m, _) = gen_message(rng, remotes, local, rids, svc::T0);
+        match guarded(|| Frame::gossip(link, m).to_bytes()) {
+            Ok(b) => b,
+            Err(_) => vec![b'r', b'a', b'd', 1, 2, 0],
+        }
+    };
+    match rng.below(10) {
+        0 => { let n = rng.usize(64); rng.bytes(n) }
+        1 => {
+            // header + boundary varint length + few bytes
+            let mut v = vec![b'r', b'a', b'd', 1, *rng.pick(&[0u8, 1, 2, 3, 4, 5, 6, 7, 0x40, 0xff])];
+            let l = *rng.pick(&[0u64, 1, 63, 64, 16383, 16384, (1 << 30) - 1, 1 << 30, 1 << 40, (1 << 62) - 1]);
+            v.extend(((0b11u64 << 62) | l).to_be_bytes());
+            let n = rng.usize(20);
+            v.extend(rng.bytes(n));
+            v
+        }
+        2..=5 => {
+            // mutated valid
+            let mut v = valid(rng);
+            for _ in 0..1 + rng.usize(3) {
+                if v.is_empty() { break; }
+                match rng.below(4) {
+                    0 => { let i = rng.usize(v.len()); v[i] ^= 1 << rng.below(8); }
+                    1 => { let i = rng.usize(v.len()); v.truncate(i); }
+                    2 => { let i = rng.usize(v.len()); v[i] = *rng.pick(&[0u8, 0xff, 0x7f, 0x80]); }
+                    _ => { let n = rng.usize(8); v.extend(rng.bytes(n)); }
+                }
+            }
+            v
+        }
+        _ => valid(rng),
+    }
+}
+
+/// (ii) one bytes-level case, executed inside a child process.
+fn bytes_case(node: &mut Node, remotes: &[Remote], rids: &[radicle::identity::RepoId], seed: u64) -> (Vec<u8>, usize, Option<String>) {
+    let mut rng = Rng::new(seed);
+    let local = svc::device(20, 0);
+    let mut bytes = vec![];
+    for _ in 0..1 + rng.usize(3) {
+        bytes.extend(gen_frame_bytes(&mut rng, remotes, &local, rids));
+    }
+    let p = rng.usize(remotes.len());
+    let mut decoded = 0;
+    let r = guarded(|| {
+        let mut d = Deserializer::<INBOX, Frame>::new(65536);
+        let mut i = 0;
+        while i < bytes.len() {
+            let n = 1 + rng.usize(64);
+            let j = (i + n).min(bytes.len());
+            if d.input(&bytes[i..j]).is_err() {
+                break;
+            }
+            i = j;
+            loop {
+                match d.deserialize_next() {
+                    Ok(Some(f)) => {
+                        decoded += 1;
+                        if let FrameData::Gossip(m) = f.data {
+                            node.service.received_message(remotes[p].nid, m);
+                            while node.service.next().is_some() {}
+                        }
+                    }
+                    Ok(None) => break,
+                    Err(_) => return, // peer would be disconnected
+                }
+            }
+        }
+    });
+    (bytes, decoded, r.err())
+}
+
+fn child_bytes(args: &Args) {
+    // args.rest = [first_index, count, seed]
+    let first: u64 = args.rest[0].parse().unwrap();
+    let count: u64 = args.rest[1].parse().unwrap();
+    let remotes: Vec<Remote> = (0..3u8).map(Remote::new).collect();
+    let (mut node, rids) = mk(args.seed, None);
+    for r in &remotes {
+        node.service.connected(r.nid, r.addr.clone(), Link::Inbound);
+        node.service.received_message(r.nid, r.node_announcement(svc::T0).into());
+    }
+    svc::drain(&mut node);
+    let mut decoded_cases = 0u64;
+    let mut frames = 0u64;
+    for k in first..first + count {
+        let (bytes, decoded, panic) = bytes_case(&mut node, &remotes, &rids, vcommon::mix(args.seed, "C13-bytes", k));
+        if decoded > 0 {
+            decoded_cases += 1;
+        }
+        frames += decoded as u64;
+        if let Some(p) = panic {
+            println!("{}", json!({"t": "panic", "index": k, "bytes_hex": hex(&bytes), "panic": p}));
+            // the service may be in an inconsistent state now: start over
+            let (n2, _) = mk(args.seed, None);
+            node = n2;
+            for r in &remotes {
+                node.service.connected(r.nid, r.addr.clone(), Link::Inbound);
+            }
+            svc::drain(&mut node);
+        }
+    }
+    println!("{}", json!({"t": "done", "cases": count, "decoded_cases": decoded_cases, "frames": frames}));
+}
+
+fn run_child(args: &Args, first: u64, count: u64) -> std::io::Result<std::process::Output> {
+    std::process::Command::new(std::env::current_exe()?)
+        .args(["C13", "--mode", "child-bytes", "--seed", &args.seed.to_string(), &first.to_string(), &count.to_string()])
+        .output()
+}
+
+fn bytes_level(rep: &mut Reporter, args: &Args, total: u64) {
+    let batch = 2_000u64;
+    let mut first = args.shard * 1_000_000_000;
+    let end = first + total;
+    while first < end {
+        let count = batch.min(end - first);
+        match run_child(args, first, count) {
+            Err(e) => {
+                rep.inconclusive("could not spawn child", json!({"e": e.to_string()}));
+                return;
+            }
+            Ok(o) => {
+                let out = String::from_utf8_lossy(&o.stdout).to_string();
+                let mut done = false;
+                for line in out.split('\n') {
+                    let Ok(v) = serde_json::from_str::<Value>(line) else { continue };
+                    if v["t"] == "panic" {
+                        let p = v["panic"].as_str().unwrap_or("");
+                        rep.violation(&format!("C13/panic/bytes/{}", vcommon::panic_site(p)), json!({"bytes_hex": v["bytes_hex"], "panic": p, "index": v["index"]}));
+                    } else if v["t"] == "done" {
+                        done = true;
+                        rep.evals(v["cases"].as_u64().unwrap_or(0));
+                        rep.add("bytes.cases", v["cases"].as_u64().unwrap_or(0));
+                        rep.add("bytes.cases-decoding-at-least-one-frame", v["decoded_cases"].as_u64().unwrap_or(0));
+                        rep.add("bytes.frames-decoded", v["frames"].as_u64().unwrap_or(0));
+                    }
+                }
+                if !done {
+                    // the child died: find the culprit case by running the batch one case per process
+                    rep.count("bytes.child-died-batches");
+                    let mut found = false;
+                    for k in first..first + count {
+                        if let Ok(o1) = run_child(args, k, 1) {
+                            if !String::from_utf8_lossy(&o1.stdout).contains("\"done\"") {
+                                let err = String::from_utf8_lossy(&o1.stderr).chars().take(300).collect::<String>();
+                                rep.violation("C13/process-died/bytes", json!({"index": k, "status": format!("{:?}", o1.status), "stderr": err, "replay_hint": "h-node C13 --mode child-bytes --seed <seed> <index> 1"}));
+                                found = true;
+                                break;
+                            }
+                        }
+                    }
+                    if !found {
+                        rep.inconclusive("child died but no single case reproduces it", json!({"first": first, "status": format!("{:?}", o.status)}));
+                    }
+                }
+            }
+        }
+        first += count;
+    }
+}
+
+/// (iii) git request headers.
+fn header_case(rep: &mut Reporter, seed: u64) {
+    let mut rng = Rng::new(seed);
+    let rid = "rad:z3gqcJUoA1n9HaHKufZs5FCSGazv5";
+    let valid = format!("git-upload-pack /{rid}\0host=seed.example:8776\0\0version=2\0");
+    let body: Vec<u8> = match rng.below(6) {
+        0 => valid.clone().into_bytes(),
+        1 => { let n = rng.usize(60); rng.bytes(n) }
+        2 => format!("git-upload-pack /{}\0host=h:{}\0", rid, rng.below(100000)).into_bytes(),
+        3 => { let mut v = valid.clone().into_bytes(); let i = rng.usize(v.len()); v[i] = rng.u8(); v }
+        4 => { let mut v = valid.clone().into_bytes(); let n = 1 + rng.usize(1100); v.extend(std::iter::repeat(b'a').take(n)); v }
+        _ => format!("git-upload-pack {}", ["", "/", "/rad:", "/rad:z", "rad:z3gqcJUoA1n9HaHKufZs5FCSGazv5", "/z3gqcJUoA1n9HaHKufZs5FCSGazv5.git"][rng.usize(6)]).into_bytes(),
+    };
+    let len_field: String = match rng.below(10) {
+        0 => "0000".into(),
+        1 => "0001".into(),
+        2 => "0003".into(),
+        3 => "0004".into(),
+        4 => "0400".into(),
+        5 => "0401".into(),
+        6 => "ffff".into(),
+        7 => (*rng.pick(&["+fff", "zzzz", "-001", "00 4", "\u{0}\u{0}\u{0}\u{0}", "0x10"])).into(),
+        8 => format!("{:04x}", rng.below(70000) & 0xffff),
+        _ => format!("{:04x}", body.len() + 4),
+    };
+    let mut all = len_field.clone().into_bytes();
+    all.extend(&body);
+    if rng.chance(1, 6) {
+        all.truncate(rng.usize(all.len() + 1));
+    }
+    rep.eval();
+    rep.count("header.cases");
+    let a2 = all.clone();
+    let r = guarded(move || {
+        let mut rd: &[u8] = &a2;
+        let res = git_request(&mut rd);
+        let mut rest = vec![];
+        let _ = rd.read_to_end(&mut rest);
+        res.map(|h| h.repo.to_string()).map_err(|e| e.to_string())
+    });
+    match r {
+        Err(p) => {
+            let cls = match usize::from_str_radix(&len_field, 16) {
+                Ok(n) if n < 4 => "declared-length-below-4",
+                Ok(n) if n > 1024 => "declared-length-above-1024",
+                _ => "other",
+            };
+            rep.violation(&format!("C13/panic/git-request-header/{cls}"), json!({"bytes_hex": hex(&all), "length_field": len_field, "panic": p}));
+        }
+        Ok(Ok(repo)) => {
+            rep.count("header.accepted");
+            if repo != rid {
+                rep.count("header.accepted-other-rid");
+            }
+            rep.nontrivial(vcommon::fnv(&all));
+        }
+        Ok(Err(_)) => {
+            rep.count("header.rejected");
+            rep.nontrivial(vcommon::fnv(&all));
+        }
+    }
+}
+
+pub fn run(args: &Args) {
+    if args.mode.as_deref() == Some("child-bytes") {
+        child_bytes(args);
+        return;
+    }
+    let mut rep = Reporter::new("C13");
+    if let Some(path) = &args.replay {
+        let w = vcommon::load_replay(path);
+        if let Some(h) = w["bytes_hex"].as_str() {
+            if w.get("length_field").is_some() {
+                let b = unhex(h).unwrap();
+                rep.eval();
+                if let Err(p) = guarded(move || { let mut rd: &[u8] = &b; let _ = git_request(&mut rd); }) {
+                    rep.violation("C13/panic/git-request-header/replay", json!({"panic": p}));
+                }
+            }
+        }
+        rep.finish();
+        return;
+    }
+    for k in 0..args.budget(3_200, 160_000) {
+        service_case(&mut rep, args.case_seed(k));
+    }
+    bytes_level(&mut rep, args, args.budget(160_000, 8_000_000));
+    for k in 0..args.budget(160_000, 8_000_000) {
+        header_case(&mut rep, args.case_seed(3_000_000_000 + k));
+    }
+    rep.finish();
+}
